@@ -16,7 +16,8 @@
    for EVERY script that transforms Left into Right (C13_composed plugs in slice.EditScript). *)
 From Coq Require Import ZArith List Bool.
 Import ListNotations.
-From Mds Require Import Mdiff.MdiffModel Mdiff.MdiffSpec Mdiff.MdiffProofs Mdiff.MdiffProofsRefuted.
+From Mds Require Import Slice.EditModel.
+From Mds Require Import Mdiff.MdiffModel Mdiff.MdiffSpec Mdiff.MdiffProofs Mdiff.MdiffProofsRefuted Mdiff.MdiffCompose.
 Local Open Scope Z_scope.
 
 (* After New: every chunk is right; the chunks are ascending, disjoint, not adjacent; substituting
@@ -80,6 +81,33 @@ Theorem C13_edits_kept : forall (T : Type) (eqb : T -> T -> bool) (n : Z) (d d' 
 Proof. exact diff_methods_keep. Qed.
 Print Assumptions C13_edits_kept.
 
+(* Composed with C11: mdiff_new lhs rhs = new_diff lhs rhs (edit_script_func eqb lhs rhs), the model
+   of slice.EditScript (Slice/EditModel.v) plugged in; == on lines is a decidable equality.  For
+   all inputs and all n >= 0, New(lhs, rhs).AddContext(n).Unify() does not panic (neither does
+   EditScript), after each stage every chunk consumes/produces exactly its ranges, AddContext
+   adds at most n context lines each side, the chunks are ascending, disjoint and not adjacent
+   after New and after Unify and turn Left into Right, the chunks hold exactly the non-Emit edits
+   of Edits, and Edits, Left, Right stay what New stored. *)
+Theorem C13_composed : forall (T : Type) (eqb : T -> T -> bool),
+    (forall a b, eqb a b = true <-> a = b) ->
+    forall (lhs rhs : list T) (n : Z),
+    0 <= n ->
+    let d0 := mdiff_new T eqb lhs rhs in
+    edit_script_run eqb lhs rhs = EOk (Edits d0) /\
+    exists d1 d2,
+      diff_add_context eqb n d0 = Ok d1 /\ diff_unify d1 = Ok d2 /\
+      Forall (chunk_ok lhs rhs) (Chunks d0) /\ Forall (chunk_ok lhs rhs) (Chunks d1) /\
+      Forall (chunk_ok lhs rhs) (Chunks d2) /\
+      Forall2 (ctx_of n) (Chunks d0) (Chunks d1) /\
+      separated 1 (Chunks d0) /\ separated 1 (Chunks d2) /\
+      apply_chunks lhs (Chunks d0) = rhs /\ apply_chunks lhs (Chunks d2) = rhs /\
+      flat_map edits (Chunks d0) = changes (Edits d0) /\
+      changes (flat_map edits (Chunks d2)) = changes (Edits d0) /\
+      Edits d1 = Edits d0 /\ Edits d2 = Edits d0 /\
+      Left d2 = lhs /\ Right d2 = rhs.
+Proof. exact composed_correct. Qed.
+Print Assumptions C13_composed.
+
 (* The hypotheses are satisfiable by a non-trivial input: Left=[a a b] Right=[a b b] with the
    script slice.EditScript returns for it; two chunks after New, merged by Unify at n = 2. *)
 Example C13_new_example :
@@ -101,6 +129,11 @@ Proof. eexists. split; [vm_compute; reflexivity|reflexivity]. Qed.
 Example C13_edits_kept_example :
   exists d', diff_add_context Nat.eqb 2 (new_diff f4_left f4_right f4_script) = Ok d' /\ Edits d' = f4_script.
 Proof. eexists. split; [vm_compute; reflexivity|reflexivity]. Qed.
+
+Example C13_composed_example :
+  (forall a b, Nat.eqb a b = true <-> a = b) /\ 0 <= 2 /\
+  Edits (mdiff_new nat Nat.eqb f4_left f4_right) = f4_script.
+Proof. split; [exact PeanoNat.Nat.eqb_eq|]. split; [discriminate|vm_compute; reflexivity]. Qed.
 
 (* For the record: the code before repair 82c6b7a (findContext not bounded by the gaps to the
    neighbouring chunks) violated the property: Left=[a a b] Right=[a b b] n=2 yields, after
